@@ -19,8 +19,9 @@
      sin(x + d) - sin x = sin x (cos d - 1) + cos x sin d,
      0 <= 1 - cos d <= d^2/2,  |sin d| <= |d|,  x cos x <= sin x  (tan x >= x),
    so with d = x t, |t| <= e:  |sin(x(1+t)) - sin x| <= (e + (PI^2/8) e^2) sin x,
-   and PI^2/8 <= 2 (from the standard library's PI <= 4; the term is second order).  The relative condition number of sin on (0, PI/2] is
-   x cot x <= 1, which is why the first-order term is e itself.
+   and PI^2/8 <= 2 (from the standard library's PI <= 4; the term is second
+   order).  The relative condition number of sin on (0, PI/2] is x cot x <= 1,
+   which is why the first-order term is e itself.
    Only the EXACT argument has to lie in [0, PI/2]; nothing is required of the
    computed argument except that it is a binary64 number.
 
